@@ -114,8 +114,16 @@ def rule_regexcfg(E, R):
         R.check(len(mc) == 1 and all(any(is_param(p_, hn, 2) for p_ in exprs(a_, "Path")) for a_ in mc[0]["args"]), rule, RX + "::new",
                 "limits come from the caller's settings", where=hn["span"])
         # size-limit error classified
-        ok = any(c["m"] == "size_limit" for c in exprs(hn["body"], "MethodCall")) and \
-            any(last_seg(norm(c.get("callee", ""))) == "CompiledTooBig" for c in exprs(hn["body"], "Call"))
+        # (the classification may be a closure in place or a private function of the impl passed to map_err by name)
+        bodies_ = [hn["body"]]
+        for p_ in exprs(hn["body"], "Path"):
+            r_ = p_.get("res", {})
+            if r_.get("r") == "def" and str(r_.get("dk", "")).startswith(("Fn", "AssocFn")) and norm(r_.get("path", "")).startswith(RX + "::"):
+                hx_ = E.hir(norm(r_["path"]))
+                if hx_ is not None and "body" in hx_:
+                    bodies_.append(hx_["body"])
+        ok = any(c["m"] == "size_limit" for bd_ in bodies_ for c in exprs(bd_, "MethodCall")) and \
+            any(last_seg(norm(c.get("callee", ""))) == "CompiledTooBig" for bd_ in bodies_ for c in exprs(bd_, "Call"))
         R.check(ok, rule, RX + "::new", "exceeding the size limit is reported as CompiledTooBig", where=hn["span"])
     else:
         R.cannot(rule, RX + "::new", "anchor not found")
